@@ -151,12 +151,22 @@ func flagCAS(v ssa.Value, f *types.Var) bool {
 	return op == "CompareAndSwap" && len(args) == 2 && isZeroConst(args[0]) && isNonZeroConst(args[1])
 }
 
+// flagSwapSet: v is the old value returned by Swap(&f, set): true = the flag was set already, false = we set it just now.
+func flagSwapSet(v ssa.Value, f *types.Var) bool {
+	op, args, _ := atomicOpOnField(v, f)
+	if op != "Swap" || len(args) != 1 || !isNonZeroConst(args[0]) {
+		return false
+	}
+	b, isB := unwrap(v).Type().Underlying().(*types.Basic)
+	return isB && b.Kind() == types.Bool
+}
+
 // factFlagSet: the fact (v == truth) implies that the flag is set when the fact is established.
 func factFlagSet(v ssa.Value, truth bool, f *types.Var) bool {
 	if pol, ok := flagLoad(v, f); ok {
 		return pol == truth
 	}
-	if flagCAS(v, f) {
+	if flagCAS(v, f) || flagSwapSet(v, f) {
 		return true // either we just set it, or it was set already
 	}
 	if u, ok := unwrap(v).(*ssa.UnOp); ok && u.Op == token.NOT {
@@ -174,6 +184,9 @@ func factFlagWasClear(v ssa.Value, truth bool, f *types.Var) bool {
 	if flagCAS(v, f) {
 		return truth
 	}
+	if flagSwapSet(v, f) {
+		return !truth // the old value was false: it was clear and this swap set it — entered only once
+	}
 	if u, ok := unwrap(v).(*ssa.UnOp); ok && u.Op == token.NOT {
 		return factFlagWasClear(u.X, !truth, f)
 	}
@@ -187,6 +200,9 @@ func factFlagWasSet(v ssa.Value, truth bool, f *types.Var) bool {
 	}
 	if flagCAS(v, f) {
 		return !truth
+	}
+	if flagSwapSet(v, f) {
+		return truth
 	}
 	if u, ok := unwrap(v).(*ssa.UnOp); ok && u.Op == token.NOT {
 		return factFlagWasSet(u.X, !truth, f)
